@@ -66,6 +66,7 @@ pub fn subject_cfg(rng: &mut Rng, tier: Tier) -> GenCfg {
         placeholder_strings: false,
         risky_specials: false,
         layout_variants: rng.chance(1, 4),
+        hostile_strings: rng.chance(1, 2),
     }
 }
 
